@@ -586,6 +586,15 @@ template <class T> static void accum_history(Ctx& c, const char* tn) {
       acc.remainder(m); mpfr_sub(E.v, E.v, k.v, MPFR_RNDN); oc = 'r'; B += unit * std::fabs((double)acc());
     }
     if (ops.size() < 200) ops += oc;
+    // the "peek" form acc(y) (sum + y without changing the accumulator) is what a copy reports after += y, bit for bit -- also when y
+    // cancels the leading word (added after seeded change C16-r5s1)
+    if (r.below(6) == 0) {
+      T yy = r.coin(0.5) ? (T)(-acc()) : r.coin() ? y : (T)(r.sign() * r.logu(1e-8, 1e8));
+      GeographicLib::Accumulator<T> cp(acc); cp += yy; T before = acc(), pk = acc(yy);
+      if (!(vh::same_bits((double)pk, (double)cp()) || (pk == 0 && cp() == 0)) || !(acc() == before))
+        c.viol(std::string("law:C16/") + tn + "/accumulator-peek-differs-from-copy-plus-add", cls, J().i("op_index", i).str("ops_prefix", ops).f("y", (double)yy).f("peek", (double)pk).f("copy_plus_add", (double)cp()));
+      c.event("accumulator: peek acc(y) judged against copy += y");
+    }
     // the reported sum (leading word) never loses the whole sum: |acc() - exact| <= |acc()| (the low word is at most
     // comparable to the leading one); in particular acc() == 0 only if the accumulator holds 0
     {
